@@ -53,7 +53,8 @@ def bounds(tier):
 def required_cells(tier):
     return ["row:empty-set", "platforms>=3", "platforms=0", "platforms=1", "dir-levels>=2", "pruned-file", "symlink-row",
             "summary", "tree", "tree:prune", "tree:-L", "cov", "clustering", "fortran-file", "asm-file",
-            "dotted-directory", "crlf-file", "non-utf8-file", "sloc>=1000"]
+            "dotted-directory", "crlf-file", "non-utf8-file", "sloc>=1000",
+            "report-selection:-R", "report-selection:--report", "report-selection:default-all", "report-selection:-R-all"]
 
 
 def close2(printed, exact):
@@ -279,8 +280,24 @@ def check_case(ctx, case, base, cls, do_clustering=False):
                 f.write("[platform]\n")
             toml = "analysis.toml"
         # (2) summary
-        rc, out, err = cli.run("codebasin", ["-R", "summary", toml], realroot)
+        # the same reports requested in four equivalent ways: -R summary, --report summary, no -R at all (every report),
+        # the deprecated -R all
+        variant = len(case["files"]) % 4
+        rargs = [["-R", "summary"], ["--report", "summary"], [], ["-R", "all"]][variant]
+        rc, out, err = cli.run("codebasin", rargs + [toml], realroot, timeout=600)
         acc.hook("cli-runs")
+        cells.add("report-selection:" + ["-R", "--report", "default-all", "-R-all"][variant])
+        if rc == 0 and variant >= 2:
+            if len(used_plats) >= 2:
+                hdr, cellsm = cli.parse_distance_matrix(out)
+                if hdr != sorted(used_plats):
+                    problems.append({"kind": "all reports: distance matrix labels", "expected": sorted(used_plats), "observed": hdr})
+                else:
+                    for (a, b), v in cellsm.items():
+                        if not close2(v, c07.ref_distance(ref, a, b)):
+                            problems.append({"kind": "all reports: distance matrix cell", "pair": [a, b], "printed": v})
+            if "Duplicates" not in out:
+                problems.append({"kind": "all reports requested but the duplicates report is missing"})
         if rc != 0:
             problems.append({"kind": "codebasin failed", "stderr": err[-300:], "stdout": out[-300:]})
         elif total > 0:
